@@ -6,7 +6,10 @@
 (*                                                                         *)
 (* S = [dbs   : 0..15 -> key space,                                        *)
 (*      conns : open connection id -> connection record,                   *)
-(*      pass  : NoPass | password bytes (requirepass)]                     *)
+(*      pass  : NoPass | password bytes (requirepass),                     *)
+(*      bseq  : counter giving blocked clients their order,                *)
+(*      scans : <<conn, db, command, key>> -> open SCAN iteration (C19),   *)
+(*      disk  : NoDump | the dataset held by the last completed dump (C09)]*)
 (* connection record = [db, authed, multi, queue, qerr, watch, subs, psubs, *)
 (*                      inbox]                                             *)
 (*   subs/psubs : channels / patterns subscribed; inbox : push frames the  *)
@@ -21,7 +24,7 @@
 (*           WATCH: nothing touched it / a no-op write addressed it /      *)
 (*           its value, existence or TTL changed)                          *)
 (***************************************************************************)
-EXTENDS ZSets
+EXTENDS Scan
 
 NDB == 16
 DBs == 0..(NDB - 1)
@@ -31,7 +34,8 @@ NotBlocked == [k |-> "no"]
 
 NewConn(S) == [db |-> 0, authed |-> (S.pass = NoPass), multi |-> FALSE, queue |-> <<>>, qerr |-> FALSE,
                watch |-> <<>>, subs |-> {}, psubs |-> {}, inbox |-> <<>>, closing |-> FALSE, blocked |-> NotBlocked]
-InitS == [dbs |-> [d \in DBs |-> EmptyK], conns |-> <<>>, pass |-> NoPass, bseq |-> 0]
+NoDump == [k |-> "nodump"]
+InitS == [dbs |-> [d \in DBs |-> EmptyK], conns |-> <<>>, pass |-> NoPass, bseq |-> 0, scans |-> <<>>, disk |-> NoDump]
 
 SOut(r, S) == {[r |-> r, S |-> S, dv |-> {}]}
 SFail(S) == SOut(RErr, S)
@@ -44,15 +48,16 @@ DataCmd(name, a, K, tm, obs) ==
   IF name \in StringCommands THEN StringCmd(name, a, K, tm)
   ELSE IF name \in CollCommands THEN CollCmd(name, a, K, obs)
   ELSE IF name \in ZSetCommands THEN ZSetCmd(name, a, K)
+  ELSE IF name \in StreamCommands THEN StreamCmd(name, a, K, obs)
   ELSE Unspec(K)
 
-IsDataCmd(name) == name \in StringCommands \cup CollCommands \cup ZSetCommands
+IsDataCmd(name) == name \in StringCommands \cup CollCommands \cup ZSetCommands \cup StreamCommands
 
 ReadOnlyCmds == {"GET", "MGET", "STRLEN", "GETRANGE", "EXISTS", "TYPE", "KEYS", "DBSIZE", "RANDOMKEY",
   "TTL", "PTTL", "LLEN", "LRANGE", "LINDEX", "SMEMBERS", "SISMEMBER", "SCARD", "SUNION", "SINTER", "SDIFF",
   "SRANDMEMBER", "HGET", "HMGET", "HGETALL", "HLEN", "HEXISTS", "HKEYS", "HVALS", "ZSCORE", "ZCARD", "ZRANK",
   "ZREVRANK", "ZRANGE", "ZREVRANGE", "ZRANGEBYSCORE", "ZREVRANGEBYSCORE", "ZCOUNT", "XRANGE", "XREVRANGE",
-  "XLEN", "XREAD", "SCAN", "HSCAN", "SSCAN", "ZSCAN", "PING", "ECHO", "SELECT"}
+  "XLEN", "XREAD", "XPENDING", "XINFO", "SCAN", "HSCAN", "SSCAN", "ZSCAN", "PING", "ECHO", "SELECT"}
 
 -----------------------------------------------------------------------------
 (* connection-level commands *)
@@ -182,6 +187,44 @@ CmdBPOP(S, c, a, tm, obs, left, inTxn) ==
 IsBlocked(cn) == cn.blocked # NotBlocked
 
 -----------------------------------------------------------------------------
+(* PERSISTENCE (C09).  SAVE writes the whole dataset as it is at that moment (entries past their deadline are
+   not part of it); a restart loads exactly the last completed dump, dropping what expired in the meantime. *)
+PurgeAllMust(dbs, tm) == [d \in DBs |-> DelAll(dbs[d], {k \in DOMAIN dbs[d] : MustGo(dbs[d][k], tm)})]
+CmdSAVE(S, a, tm) ==
+  IF Len(a) # 1 THEN SFail(S) ELSE SOut(ROk, [S EXCEPT !.disk = [k |-> "dump", dbs |-> S.dbs, at |-> tm]])
+
+(* the states a restart observed in tm may come up in: every connection is gone; deadlines survive to clock
+   granularity (they are stored in ms of wall-clock time), so the intervals are widened by Eps *)
+Widen(e) == IF e.exp.k = "at" THEN [e EXCEPT !.exp.lo = @ - Eps, !.exp.hi = @ + Eps] ELSE e
+RECURSIVE PurgeAllDbs(_, _, _)
+PurgeAllDbs(Ds, d, tm) == \* Ds: set of dbs functions
+  IF d >= NDB THEN Ds
+  ELSE PurgeAllDbs(UNION {{[X EXCEPT ![d] = K2] : K2 \in PurgeChoices(X[d], tm)} : X \in Ds}, d + 1, tm)
+Restarted(S, tm) ==
+  LET base == IF S.disk = NoDump THEN [d \in DBs |-> EmptyK]
+              ELSE [d \in DBs |-> [k \in DOMAIN S.disk.dbs[d] |-> Widen(S.disk.dbs[d][k])]]
+  IN {[S EXCEPT !.dbs = X, !.conns = <<>>, !.scans = <<>>] : X \in PurgeAllDbs({base}, 0, tm)}
+
+-----------------------------------------------------------------------------
+(* cursor iterations (C19): one open iteration per <<connection, db, command, key>> *)
+CmdSCANx(S, c, name, a, obs) ==
+  LET d == S.conns[c].db
+      key == IF name = "SCAN" \/ Len(a) < 2 THEN <<>> ELSE a[2]
+      id == <<c, d, name, key>>
+      it == IF id \in DOMAIN S.scans THEN S.scans[id] ELSE NoIter
+  IN {[r |-> x.r, dv |-> {},
+       S |-> [S EXCEPT !.scans = IF x.it = NoIter THEN [y \in (DOMAIN S.scans) \ {id} |-> S.scans[y]]
+                                 ELSE (id :> x.it) @@ S.scans]]
+      : x \in ScanCall(name, a, S.dbs[d], it, obs)}
+
+(* every change of a database is seen by the iterations that are open on it *)
+ScanTrack(S0, S1) ==
+  IF DOMAIN S1.scans = {} THEN S1
+  ELSE [S1 EXCEPT !.scans = [id \in DOMAIN S1.scans |->
+          IF S0.dbs[id[2]] = S1.dbs[id[2]] THEN S1.scans[id]
+          ELSE ScanObserve(id[3], id[4], S1.scans[id], S1.dbs[id[2]])]]
+
+-----------------------------------------------------------------------------
 (* WATCH bookkeeping *)
 EntryAt(S, d, k) == IF k \in DOMAIN S.dbs[d] THEN S.dbs[d][k] ELSE [t |-> "absent"]
 
@@ -275,11 +318,13 @@ Exec1(S, c, a, tm, obs, inTxn) ==
                [] name = "UNSUBSCRIBE" -> CmdUNSUBSCRIBE(S, c, a, FALSE)
                [] name = "PUNSUBSCRIBE" -> CmdUNSUBSCRIBE(S, c, a, TRUE)
                [] name = "PUBLISH" -> CmdPUBLISH(S, a)
+               [] name \in ScanCommands -> CmdSCANx(S, c, name, a, obs)
+               [] name = "SAVE" -> CmdSAVE(S, a, tm)
                [] name = "BLPOP" -> CmdBPOP(S, c, a, tm, obs, TRUE, inTxn)
                [] name = "BRPOP" -> CmdBPOP(S, c, a, tm, obs, FALSE, inTxn)
                [] name = "?" -> SFail(S)
                [] OTHER -> SOut(RAny, S)
-  IN {[o EXCEPT !.S = MarkWatch(S, o.S, d, name, a, o.r)] : o \in raw}
+  IN {[o EXCEPT !.S = ScanTrack(S, MarkWatch(S, o.S, d, name, a, o.r))] : o \in raw}
 
 (* commands that are not queued inside MULTI *)
 TxnControl == {"MULTI", "EXEC", "DISCARD", "WATCH", "UNWATCH"}
@@ -310,7 +355,7 @@ Step(S, c, a, tm, obs) ==
 
 (* expiry of entries of database d as seen by a request in tm; watchers see the removal *)
 PurgeDb(S, d, tm) ==
-  {MarkWatch(S, [S EXCEPT !.dbs[d] = K2], d, "GET", <<>>, RNil) : K2 \in PurgeChoices(S.dbs[d], tm)}
+  {ScanTrack(S, MarkWatch(S, [S EXCEPT !.dbs[d] = K2], d, "GET", <<>>, RNil)) : K2 \in PurgeChoices(S.dbs[d], tm)}
 
 (* the server serves blocked client c with `frame` = <<key, element>> (C13):
    c waits on that key, the list has that element at the proper end, c blocked first among the waiters of that
@@ -327,7 +372,7 @@ Served(S, c, frame) ==
                              /\ S.conns[x].blocked.ord < b.ord}
                S1 == [S EXCEPT !.dbs[b.db] = p.K, !.conns[c].blocked = NotBlocked]
            IN IF p.x = frame.v[2].v /\ earlier = {} /\ b.r = frame
-              THEN {MarkWatch(S, S1, b.db, "LPOP", <<L_LPOP, key>>, frame)} ELSE {}
+              THEN {ScanTrack(S, MarkWatch(S, S1, b.db, "LPOP", <<L_LPOP, key>>, frame))} ELSE {}
 
 TimeoutSlack == 3000
 TimedOut(S, c) ==
@@ -346,6 +391,7 @@ ExpectedRegs(S) ==
   UNION {{<<S.conns[c].blocked.db, k, c>> : k \in SeqSet(S.conns[c].blocked.keys)} : c \in BlockedConns(S)}
 
 (* a connection goes away: its transaction and watches vanish with it *)
-DropConn(S, c) == [S EXCEPT !.conns = [x \in (DOMAIN S.conns) \ {c} |-> S.conns[x]]]
+DropConn(S, c) == [S EXCEPT !.conns = [x \in (DOMAIN S.conns) \ {c} |-> S.conns[x]],
+                            !.scans = [id \in {y \in DOMAIN S.scans : y[1] # c} |-> S.scans[id]]]
 
 =============================================================================
